@@ -10,6 +10,7 @@ import TracingModel.Spec.CivilJudge
 import TracingModel.Core.LevelsDriver
 import TracingModel.Core.CoreDriver
 import TracingModel.Core.RegistryDriver
+import TracingModel.Core.SpanDriver
 
 open TM TM.Wire
 
@@ -43,6 +44,7 @@ def dispatch (prop mode : String) : Option (List String → String) :=
   | "C01", "spec" => some CoreDriver.spec
   | "C02", "model" => some CoreDriver.model
   | "C02", "spec" => some CoreDriver.spec
+  | "C03", "model" => some SpanDriver.model
   | "C05", "model" => some RegistryDriver.model
   | "C05", "spec" => some RegistryDriver.spec
   | "C06", "model" => some RegistryDriver.model
